@@ -70,7 +70,9 @@ const WIDE: &[u32] = &[0x4e00, 0x65e5, 0x30b3, 0x4e07, 0x4e1b];
 const COMBINING: &[u32] = &[0x336, 0x20dd, 0xfe0f]; // U+FE0F: a cluster whose string width differs from its first character's
 // characters that are combining marks for the normalisation crate AND have a display width: spacing marks (Mc, width 1) and
 // the one wide one; they are drawn like any other printable character (`harness classes` lists every class)
-const SPACINGMARK: &[u32] = &[0x903, 0x93e, 0x16ff0];
+// (the wide mark U+16FF0 has a non-zero canonical combining class: the NFC normalisation of a cell reorders it with later marks,
+// which the property does not describe - it is drawn on its own in the C04 sweep only)
+const SPACINGMARK: &[u32] = &[0x903, 0x93e];
 const ZEROWIDTH: &[u32] = &[0x200b, 0xad, 0x61c];
 const UNPRINT: &[u32] = &[0x00, 0x01, 0x7f, 0x85];
 
@@ -89,6 +91,15 @@ fn text_char(rng: &mut Rng) -> u32 {
 
 fn text(rng: &mut Rng, maxlen: u64) -> Vec<u32> {
     // now and then a long run: behaviour that differs for the 2nd wrap / the 30th character of one call
+    if rng.chance(1, 60) {
+        // one cell piled up with more marks than a bounded normaliser buffer holds
+        let k = *rng.pick(&[29u64, 30, 31, 32, 33, 40]);
+        let mark = *rng.pick(&[0x336u32, 0x20dd]);
+        let mut v = vec![*rng.pick(NARROW)];
+        v.extend((0..k).map(|_| mark));
+        v.push(*rng.pick(NARROW));
+        return v;
+    }
     let n = if rng.chance(1, 24) { 7 + rng.below(40) } else { 1 + rng.below(maxlen) };
     (0..n).map(|_| text_char(rng)).collect()
 }
